@@ -25,7 +25,7 @@ OTHER = [("copy", "Int"), ("copy", "String"), ("copy", "Float"), ("static", "Int
          ("it_range", "Int"), ("it_slice", "Int"), ("it_zip", "Int"), ("it_map", "Int"), ("rtinst", "Int")]
 RELEASE = ["del_raw", "dealloc", "dealloc_raw", "dealloc_root"]
 MANAGED = ["del", "del_root"]
-INPLACE_S = ["resize", "assign", "concat", "append", "printto", "lookfrom", "lookempty", "scanshow"]
+INPLACE_S = ["resize", "assign", "assignin", "concat", "append", "printto", "lookfrom", "lookempty", "scanshow"]
 INPLACE_T = ["push", "pop", "popat", "resize", "concat", "assign"]
 KNOWN_SILENT = "F-C19-del-nonheap"
 
